@@ -373,3 +373,13 @@ _extend('C03',
 _extend('C14',
         ' LINK to C02 (C14_scripts_same_model_same_generate): two guarded API scripts that end in the same model up to the order in which '
         'nodes, edges and observed data were inserted give the same generate result (both succeed with equal values and call log, or both fail).')
+_extend('C14',
+        ' C14_params_distinct_reachable (+ _add_node_positional_params, _step_keeps_params_distinct, _scripts_same_model_same_generate_guarded): '
+        'the hypothesis "the parameters on the incoming edges of every node are pairwise distinct" that the C02 insertion-order theorem assumes '
+        'is itself an invariant of guarded scripts - the guard is syntactic on the step (distinct parents at add_node, a free parameter at '
+        'add_edge, no self-loop at become, data only on an existing node), so the C02 link needs no semantic side condition on reachable models.')
+_extend('C05',
+        ' DURABILITY OF A WHOLE ON-DISK POOL (C05_on_disk_pool_flush_loads, _reopen_restores, _crash_prefix, _crash_prefix_batches, '
+        '_crash_restart): after flush every store file loads to exactly the batches the run produced; closing and reopening every store restores '
+        'the pool state; a kill at any point of a run leaves, for every store of a node of the net, a file that loads to a PREFIX batches 0..m-1 of '
+        'what the run produced (at least what was there at the last flush), and the restarted handler continues as the pool model on that abstraction.')
